@@ -17,7 +17,57 @@
 #include <sstream>
 #include <thread>
 
+#include <chrono>
+#include <cstring>
+
+#include "corecel/sys/VerifHooks.hh"
 #include "harness/c07_common.hh"
+
+//---------------------------------------------------------------------------//
+// Rendezvous at the begin-run hooks: ThreadSanitizer reports two accesses only if no
+// happens-before path joins them, and on a busy machine one thread easily finishes its whole
+// Stepper construction (including incidental synchronisation such as shared_ptr reference
+// counts) before the next one starts.  All T threads therefore wait for each other right before
+// their k-th begin-run action (CELERITAS_VERIF hook "begin-run-action"), so that the begin-run
+// actions of the shared, mutable action objects really are executed side by side.
+// The same is done for the first `rv_step_hooks` step actions of every thread that transports
+// at least one event ("step-action" hook): the k-th step action is then executed by all busy
+// streams at the same time (same action, shared action object), which is where a static / a
+// mutable scratch buffer in a shared object is hit from two threads.
+static constexpr unsigned rv_begin_slots = 16, rv_step_hooks = 48;
+static std::atomic<unsigned> g_rv_arrived[rv_begin_slots + rv_step_hooks];
+static std::atomic<unsigned> g_rv_threads{0}, g_rv_busy_threads{0};
+static thread_local unsigned tl_rv_index = 0, tl_rv_step_index = 0;
+
+static void rendezvous_hook(char const* tag)
+{
+    unsigned need = 0, k = 0;
+    if (std::strcmp(tag, "begin-run-action") == 0)
+    {
+        need = g_rv_threads.load(std::memory_order_relaxed);
+        k = tl_rv_index++;
+        if (k >= rv_begin_slots)
+            return;
+    }
+    else if (std::strcmp(tag, "step-action") == 0)
+    {
+        need = g_rv_busy_threads.load(std::memory_order_relaxed);
+        k = tl_rv_step_index++;
+        if (k >= rv_step_hooks)
+            return;
+        k += rv_begin_slots;
+    }
+    if (need < 2)
+        return;
+    g_rv_arrived[k].fetch_add(1);
+    auto t0 = std::chrono::steady_clock::now();
+    while (g_rv_arrived[k].load() < need)
+    {
+        if (std::chrono::steady_clock::now() - t0 > std::chrono::milliseconds(200))
+            break;  // never block: a thread that failed earlier must not hang the others
+        std::this_thread::yield();
+    }
+}
 
 //---------------------------------------------------------------------------//
 // ThreadSanitizer report parsing (text log written through TSAN_OPTIONS=log_path=...)
@@ -126,15 +176,17 @@ static std::vector<RaceReport> read_tsan_reports()
             {
                 std::istringstream is2(b);
                 bool in_access = false, any_access = false, all_in_checker = true,
-                     rebuild = false, cur_checker = false;
+                     rebuild = false, cur_checker = false, cur_frames = false;
                 auto close = [&] {
-                    if (in_access)
+                    // an access whose stack could not be restored (no frames) says nothing
+                    if (in_access && cur_frames)
                     {
                         any_access = true;
                         all_in_checker = all_in_checker && cur_checker;
                     }
                     in_access = false;
                     cur_checker = false;
+                    cur_frames = false;
                 };
                 while (std::getline(is2, line))
                 {
@@ -146,12 +198,15 @@ static std::vector<RaceReport> read_tsan_reports()
                         // "Previous atomic write" ... are the two accesses; "Location is",
                         // "Thread T1 ... created by", "Mutex ..." are not
                         std::string t = line.substr(2);
-                        in_access = t.find(" of size ") != std::string::npos
+                        in_access = (t.rfind("Read of", 0) == 0 || t.rfind("Write of", 0) == 0
+                                     || t.rfind("Previous ", 0) == 0 || t.rfind("Atomic ", 0) == 0)
+                                    && t.find(" of size ") != std::string::npos
                                     && t.find(" by ") != std::string::npos;
                         continue;
                     }
                     if (in_access && line.find("    #") == 0)
                     {
+                        cur_frames = true;
                         if (line.find("StatusChecker::") != std::string::npos)
                             cur_checker = true;
                         if (line.find("StatusChecker::begin_run_impl") != std::string::npos)
@@ -172,6 +227,7 @@ static std::vector<RaceReport> read_tsan_reports()
 static void part_tsan(vf::Run& R)
 {
     bool const thorough = R.thorough();
+    celeritas::verif::g_yield = &rendezvous_hook;
     std::vector<Variant> variants = all_variants();
     unsigned const slots = 4;
     uint64_t outer = 0;
@@ -215,6 +271,12 @@ static void part_tsan(vf::Run& R)
         std::map<unsigned, uint64_t> ref_hash;
         for (auto const& cs : cases)
         {
+            // quick: the three newer variants run the T=3 assignments that keep all three
+            // streams busy only (thorough: everything)
+            if (!thorough && cs.T == 3 && (v.checker || v.along != AlongStep::linear_fluct
+                                           || v.order == TrackOrder::reindex_both_action)
+                && std::set<unsigned>(cs.assign.begin(), cs.assign.end()).size() < 3)
+                continue;
             if (!R.mine(outer++))
                 continue;
             if (R.expired())
@@ -248,7 +310,13 @@ static void part_tsan(vf::Run& R)
                 std::vector<char> okv(cs.assign.size(), 1);
                 std::vector<std::string> errs(cs.T);
                 std::atomic<unsigned> ready{0};
+                for (auto& a : g_rv_arrived)
+                    a.store(0);
+                g_rv_threads.store(cs.T);
+                g_rv_busy_threads.store(unsigned(std::set<unsigned>(cs.assign.begin(), cs.assign.end()).size()));
                 auto body = [&](unsigned t) {
+                    tl_rv_index = 0;
+                    tl_rv_step_index = 0;
                     try
                     {
                         // start together to maximise overlap of the lazy initialisation
@@ -274,6 +342,8 @@ static void part_tsan(vf::Run& R)
                     th.emplace_back(body, t);
                 for (auto& t : th)
                     t.join();
+                g_rv_threads.store(0);
+                g_rv_busy_threads.store(0);
                 R.count("evaluations");
                 R.count("transitions", cs.assign.size());
                 for (unsigned t = 0; t < cs.T; ++t)
